@@ -1004,7 +1004,7 @@ func (w *World) copyTo(op Op, h *Handle) string {
 		if got := dumpStore(s2); got != exp {
 			return "dst-reopen-differs: " + got
 		}
-		if d := DecodeModel(img); !(strings.HasPrefix(d, "ok ") && strings.SplitN(d, " ", 3)[2] == exp) && !(exp == "" && (d == "empty" || strings.HasPrefix(d, "ok "))) {
+		if d := DecodeModel(img); d != "timeout" && !(strings.HasPrefix(d, "ok ") && strings.SplitN(d, " ", 3)[2] == exp) && !(exp == "" && (d == "empty" || strings.HasPrefix(d, "ok "))) {
 			return "dst-decode-differs: " + trunc(d, 200)
 		}
 		// only live data: each item record exactly once
